@@ -64,9 +64,20 @@ package broker
 //@ func (c *Client) Closing() (ch <-chan struct{})
 //@   ensures [owner] ch == closingof(c)
 //@   modifies nothing
+// nqoffer: non-blocking offers of a message to a session queue (Publish);
+// nclosingseen: how often some client's closing was observed. Publish may
+// give up on a receiver because it is closing only after a non-blocking
+// offer to its queue has failed: a closing client's queue may still have
+// room, and the message must then be kept for the session.
+//@ ghost nqoffer int
+//@ ghost nclosingseen int
+//@ func chan.offer(ch int)
+//@   ensures nqoffer == old(nqoffer) + 1
+//@   modifies nqoffer
 //@ func chan.recv:ret:Client.Closing(ch int, v int)
 //@   ensures closingobs == old(closingobs)[clientof(ch) := old(closingobs[clientof(ch)]) + 1]
-//@   modifies closingobs
+//@   ensures nclosingseen == old(nclosingseen) + 1
+//@   modifies closingobs, nclosingseen
 //@ func (c *Client) Closed() (ch <-chan struct{})
 //@   modifies nothing
 //
@@ -118,8 +129,10 @@ package broker
 //@   ensures [retained-untouched] !old(msg.Retain) ==> tlast == old(tlast) && nemptied == old(nemptied)
 //@   ensures [released] held == old(held)
 //@   ensures [no-giveup-for-publisher] closingobs[client] == old(closingobs[client])
-//@   modifies msg.Retain, any(topic.node.values), anymap(map[string]*topic.node), elemsof(iface), isnode, held, tlast, nemptied, lastfirst, nchansend, anystop, seen, closingobs, present
+//@   modifies msg.Retain, any(topic.node.values), anymap(map[string]*topic.node), elemsof(iface), isnode, held, tlast, nemptied, lastfirst, nchansend, anystop, seen, closingobs, present, nqoffer, nclosingseen
+//@   loop 1 invariant [offer-before-giving-up] nclosingseen - old(nclosingseen) <= nqoffer - old(nqoffer)
 //@   loop 1 invariant [state] closingobs[client] == old(closingobs[client]) && held == old(held)[m.globalMutex := 2] && !msg.Retain && msg.Topic == old(msg.Topic) && msg.Payload == old(msg.Payload) && msg.QOS == old(msg.QOS) && backend_ok(m)
+//@   loop 2 invariant [offer-before-giving-up] nclosingseen - old(nclosingseen) <= nqoffer - old(nqoffer)
 //@   loop 2 invariant [state] closingobs[client] == old(closingobs[client]) && held == old(held)[m.globalMutex := 2] && !msg.Retain && msg.Topic == old(msg.Topic) && msg.Payload == old(msg.Payload) && msg.QOS == old(msg.QOS) && backend_ok(m)
 //@ functype "func(s *broker.memorySession) chan *packet.Message" (s *memorySession) (ch chan *packet.Message)
 //@   requires [session] s != nil
@@ -180,7 +193,7 @@ package broker
 //@   requires [backend] client != nil && own_session(client)
 //@   ensures [no-ack] ack == nil && err == nil
 //@   ensures [released] held == old(held)
-//@   modifies held, lastfirst, anystop, seen, closingobs
+//@   modifies held, lastfirst, anystop, seen, closingobs, nclosingseen
 //
 // Terminate (C13, C14): detaches the client from its session and from both
 // tables; never panics, also for a client whose Setup failed (no session).
